@@ -551,9 +551,12 @@ MaxCommittedCfg == IF CommittedCfgIdx = {} THEN 0 ELSE CHOOSE i \in CommittedCfg
 \* configuration when they apply it, the leader when it appends it; two configurations apart
 \* the quorums need not intersect).  From that event on, the safety clauses of the scenario
 \* are attributed to S5.
+\* (one configuration behind is harmless: the quorums of two configurations that differ by one
+\* server always intersect; the hazard starts at two)
 KF_S5 == /\ NewLeader /\ ~Is("send")
-         /\ (IF Is("status") THEN Ev.cfg.i
-             ELSE IF LeadEv[1] \in DOMAIN stat THEN stat[LeadEv[1]].cfg.i ELSE MaxCommittedCfg) < MaxCommittedCfg
+         /\ LET mine == IF Is("status") THEN Ev.cfg.i
+                        ELSE IF LeadEv[1] \in DOMAIN stat THEN stat[LeadEv[1]].cfg.i ELSE MaxCommittedCfg IN
+            Cardinality({i \in CommittedCfgIdx : i > mine}) >= 2
 
 \* all nodes apply the same sequence of configurations: a node's commit index never covers a
 \* configuration entry that differs from the one first committed at that index
@@ -706,10 +709,10 @@ NewBad ==
              \cup C16_Healthy \cup C10_Snapshot \cup C10_Fsm \cup C11_Log
              \cup C09_CfgAgreement \cup C09_LeaderVotes \cup C09_VoteRequests \cup C09_CommitMajority
       \* violations of the replication-safety clauses after the S5 signature carry its tag
-      tagged == {IF (s5 \/ KF_S5) /\ b.p \in {"C01", "C02", "C03", "C04", "C05", "C07", "C09"}
+      tagged == {IF (s5 \/ KF_S5) /\ b.p \in {"C01", "C02", "C03", "C04", "C05", "C07", "C09", "C15"}
                       /\ b.c \in {"SMSafety", "LeaderCompleteness", "FutureWrongPosition", "FutureWrongResult", "AppliedNotOnMajorityDisk",
                                   "AckNotOnMajorityDisk", "CommittedTruncated", "StaleRead", "ReadWentBackwards", "ConfigurationsDiverge",
-                                  "CommitWithoutVoterMajority", "RealTimeOrder", "AppliedTwice", "LeaderWithoutVoterMajority", "ElectionSafety"}
+                                  "CommitWithoutVoterMajority", "RealTimeOrder", "AppliedTwice", "LeaderWithoutVoterMajority", "ElectionSafety", "NotConvergedWithin4B"}
                    THEN [b EXCEPT !.kf = "S5"]
                  ELSE IF b.p \in {"C10", "C11", "C01"} /\ Has("node") /\ (Ev.node \in s7 \/ KF_S7)
                       /\ b.c \in {"InstalledSnapshotNotFromSender", "SnapshotNotExact", "RestoredStateNotExact", "OperationAppliedTwice",
